@@ -327,7 +327,7 @@ func (r *c20) beliefs() {
 		if outer == nil || fv == nil {
 			return
 		}
-		k := outer.Obj().Name() + "." + fv.Name()
+		k := outer.Obj().Name() + "." + an.RoleOf(fv)
 		if _, ok := r.nullable[k]; !ok {
 			r.nullable[k] = why
 		}
